@@ -239,6 +239,8 @@ PropFailures(S, e, T, out, rec) ==
   \cup F("C01", "ReplicasAgree", rec.det = "")
   \cup F("C03", "SaveLoadInvisible", rec.snap = "")
   \cup F("C15", "OneLine", rec.lines = "")
+  \cup F("C04", "ReplyIdsArePositions", rec.rids = "")
+  \cup F("C01", "ReplyIdsArePositions", rec.rids = "")
   \cup F("C14", "PublicViewMatchesState", rec.view = "")
   \cup F("C17", "LookupSound",
          \A k \in DOMAIN rec.lookup :
